@@ -169,29 +169,42 @@ pub fn case(ctx: &mut Ctx, idx: u64) {
         }
     }
 
-    // ---- A2: with_mods = true => value reported back unchanged, inputs in [0, 10]
+    // ---- A2: with_mods = true => value reported back unchanged, inputs in [0, 10]; the other three attributes
+    //          carry independent values and flags
     {
         let mut i = 0;
-        while i <= 40 {
+        'a2: while i <= 40 {
             let v = i as f32 * 0.25;
-            let c = Cfg {
-                ar: Some((v, true)),
-                od: Some((v, true)),
-                cs: Some((v, true)),
-                hp: Some((v, true)),
-                ..base.clone()
-            };
-            let b = c.build();
-            ctx.eval();
-            for (name, got) in [("ar", b.ar), ("od", b.od), ("cs", b.cs), ("hp", b.hp)] {
+            for which in 0..4 {
+                let other = |rng: &mut Rng| Some(((rng.range(0, 40) as f32) * 0.25, rng.chance(0.5)));
+                let mut c = Cfg {
+                    ar: other(&mut rng),
+                    od: other(&mut rng),
+                    cs: other(&mut rng),
+                    hp: other(&mut rng),
+                    ..base.clone()
+                };
+                match which {
+                    0 => c.ar = Some((v, true)),
+                    1 => c.od = Some((v, true)),
+                    2 => c.cs = Some((v, true)),
+                    _ => c.hp = Some((v, true)),
+                }
+                let b = c.build();
+                ctx.eval();
+                let (name, got) = match which {
+                    0 => ("ar", b.ar),
+                    1 => ("od", b.od),
+                    2 => ("cs", b.cs),
+                    _ => ("hp", b.hp),
+                };
                 if (got - f64::from(v)).abs() > 1e-6 {
                     viol(
                         ctx,
                         &format!("C17/A2/{mname}/{name}"),
-                        format!("{name}({v}, with_mods=true) is reported back as {got}"),
+                        format!("{name}({v}, with_mods=true) is reported back as {got} | cfg {c:?}"),
                     );
-                    i = 1000;
-                    break;
+                    break 'a2;
                 }
             }
             i += 1;
@@ -243,39 +256,59 @@ pub fn case(ctx: &mut Ctx, idx: u64) {
         }
     }
 
-    // ---- A4: window(rate r) * r == window(rate 1) for values given without mods
+    // ---- A4: window(rate r) * r == window(rate 1) for values given without mods; a value given with mods has a
+    //          rate-independent window. The flag and value of the *other* attribute vary independently.
     {
         let r = base.clock.unwrap_or(1.5);
-        for _ in 0..8 {
+        for _ in 0..12 {
             let v = (rng.range(-80, 80) as f32) * 0.25;
-            let c_r = Cfg {
-                clock: Some(r),
-                ar: Some((v, false)),
-                od: Some((v, false)),
-                ..base.clone()
+            let other_v = (rng.range(0, 40) as f32) * 0.25;
+            let other_flag = rng.chance(0.5);
+            let flag = rng.chance(0.35);
+            let od_case = rng.chance(0.5);
+            let mk = |clock: f64| {
+                if od_case {
+                    Cfg {
+                        clock: Some(clock),
+                        od: Some((v, flag)),
+                        ar: Some((other_v, other_flag)),
+                        ..base.clone()
+                    }
+                } else {
+                    Cfg {
+                        clock: Some(clock),
+                        ar: Some((v, flag)),
+                        od: Some((other_v, other_flag)),
+                        ..base.clone()
+                    }
+                }
             };
-            let c_1 = Cfg {
-                clock: Some(1.0),
-                ..c_r.clone()
-            };
-            let (wr, w1) = (c_r.windows(), c_1.windows());
+            let (wr, w1) = (mk(r).windows(), mk(1.0).windows());
             ctx.eval();
-            let mut pairs = vec![("ar", wr.ar, w1.ar)];
-            if mode != GameMode::Mania {
-                pairs.push(("od_great", wr.od_great, w1.od_great));
-                if let (Some(a), Some(b)) = (wr.od_ok, w1.od_ok) {
-                    pairs.push(("od_ok", a, b));
+            let mut pairs: Vec<(&str, f64, f64)> = Vec::new();
+            if od_case {
+                if mode != GameMode::Mania {
+                    pairs.push(("od_great", wr.od_great, w1.od_great));
+                    if let (Some(a), Some(b)) = (wr.od_ok, w1.od_ok) {
+                        pairs.push(("od_ok", a, b));
+                    }
+                    if let (Some(a), Some(b)) = (wr.od_meh, w1.od_meh) {
+                        pairs.push(("od_meh", a, b));
+                    }
                 }
-                if let (Some(a), Some(b)) = (wr.od_meh, w1.od_meh) {
-                    pairs.push(("od_meh", a, b));
-                }
+            } else {
+                pairs.push(("ar", wr.ar, w1.ar));
             }
             for (name, a, b) in pairs {
-                if !rel_close(a * r, b, 1e-12) {
+                let ok = if flag { rel_close(a, b, 1e-12) } else { rel_close(a * r, b, 1e-12) };
+                if !ok {
                     viol(
                         ctx,
-                        &format!("C17/A4/{mname}/{name}"),
-                        format!("{name}: window at rate {r} = {a}, times rate = {} but window at rate 1 = {b} (value {v})", a * r),
+                        &format!("C17/A4/{mname}/{name}/{}", if flag { "with-mods-rate-independent" } else { "inverse-scaling" }),
+                        format!(
+                            "{name}: value {v} with_mods={flag} (other attribute {other_v} with_mods={other_flag}): window at rate {r} = {a}, at rate 1 = {b}; expected {}",
+                            if flag { "equal windows".to_string() } else { format!("{a} * {r} = {} == {b}", a * r) }
+                        ),
                     );
                     break;
                 }
